@@ -205,20 +205,23 @@ def retOf : GRes (GEnv × Sig) → GRes GVal
   | .ok (_, _) w => .ok .void w
 
 theorem call_func {F w name args fn r0} (hf : F.findFunc name = some fn)
-    (hb : BlockS F ((fn.params.zip args).map fun ((x, _), v) => (x, v)) w fn.body r0) :
+    (hb : BlockS F ((fn.params.zip args).map fun ((x, _), v) => (x, v)) w fn.body r0)
+    (hlen : fn.params.length = args.length := by first | rfl | decide | simp) :
     CallS F w (.func name) args (retOf r0) := by
   obtain ⟨m, hm⟩ := hb
   refine ⟨m + 1, fun k hk => ?_⟩
   obtain ⟨k, rfl, hk'⟩ := succ_of_le hk
-  rw [callG.eq_def]; simp only [hf, hm k hk']
+  have har : (fn.params.length != args.length) = false := by simp [hlen]
+  rw [callG.eq_def]; simp only [hf, har, Bool.false_eq_true, if_false, hm k hk']
   cases r0 with
   | fail f w => rfl
   | ok p w => obtain ⟨ρ', sig⟩ := p; cases sig <;> rfl
 
 theorem call_func_env {F w name args fn ρ r0 r} (hf : F.findFunc name = some fn)
     (hρ : (fn.params.zip args).map (fun ((x, _), v) => (x, v)) = ρ)
-    (hb : BlockS F ρ w fn.body r0) (hr : retOf r0 = r) : CallS F w (.func name) args r := by
-  subst hρ; subst hr; exact call_func hf hb
+    (hb : BlockS F ρ w fn.body r0) (hr : retOf r0 = r)
+    (hlen : fn.params.length = args.length := by first | rfl | decide | simp) : CallS F w (.func name) args r := by
+  subst hρ; subst hr; exact call_func hf hb hlen
 
 /-! ### blocks and statements -/
 
@@ -452,6 +455,95 @@ theorem stmt_loop_fail {F ρ w body f w1} (h1 : NestS F ρ w body (.fail f w1)) 
   refine ⟨m1 + 1, fun k hk => ?_⟩
   obtain ⟨k, rfl, hk'⟩ := succ_of_le hk
   rw [execG.eq_def]; simp [h1 k hk']
+
+/-! ### `switch` / type switch -/
+
+def SwS (F : GFile) (ρ : GEnv) (w : GWorld) (v : GVal) (cs : List GCase) (d : Option (List GStmt)) (r : GRes (GEnv × Sig)) : Prop :=
+  ∃ m, ∀ k, m ≤ k → switchG k F ρ w v cs d = r
+def TSwS (F : GFile) (ρ : GEnv) (w : GWorld) (v : GVal) (cs : List GTCase) (d : Option (List GStmt)) (r : GRes (GEnv × Sig)) : Prop :=
+  ∃ m, ∀ k, m ≤ k → tswitchG k F ρ w v cs d = r
+
+theorem sw_nil_some {F ρ w v d r} (h : NestS F ρ w d r) : SwS F ρ w v [] (some d) r := by
+  obtain ⟨m, hm⟩ := h
+  refine ⟨m + 1, fun k hk => ?_⟩
+  obtain ⟨k, rfl, hk'⟩ := succ_of_le hk
+  rw [switchG.eq_def]; simp only [hm k hk']
+
+theorem sw_nil_none {F ρ w v} : SwS F ρ w v [] none (.ok (ρ, .normal) w) := by
+  refine ⟨1, fun k hk => ?_⟩
+  obtain ⟨k, rfl, -⟩ := succ_of_le hk
+  rw [switchG.eq_def]
+
+theorem sw_cons_hit {F ρ w v ce body rest d cv r} (hc : EvS F ρ w ce (.ok cv w)) (hq : (gvalEq cv v).getD false = true)
+    (hb : NestS F ρ w body r) : SwS F ρ w v (.mk ce body :: rest) d r := by
+  obtain ⟨m1, h1⟩ := hc
+  obtain ⟨m2, h2⟩ := hb
+  refine ⟨max m1 m2 + 1, fun k hk => ?_⟩
+  obtain ⟨k, rfl, hk'⟩ := succ_of_le hk
+  rw [switchG.eq_def]; simp only [h1 k (by omega), hq, h2 k (by omega), if_true]
+
+theorem sw_cons_miss {F ρ w v ce body rest d cv r} (hc : EvS F ρ w ce (.ok cv w)) (hq : (gvalEq cv v).getD false = false)
+    (hb : SwS F ρ w v rest d r) : SwS F ρ w v (.mk ce body :: rest) d r := by
+  obtain ⟨m1, h1⟩ := hc
+  obtain ⟨m2, h2⟩ := hb
+  refine ⟨max m1 m2 + 1, fun k hk => ?_⟩
+  obtain ⟨k, rfl, hk'⟩ := succ_of_le hk
+  rw [switchG.eq_def]; simp only [h1 k (by omega), hq, h2 k (by omega), Bool.false_eq_true, if_false]
+
+theorem stmt_switch {F ρ w e cs d v w' r} (he : EvS F ρ w e (.ok v w')) (hs : SwS F ρ w' v cs d r) :
+    StmtS F ρ w (.switch e cs d) r := by
+  obtain ⟨m1, h1⟩ := he
+  obtain ⟨m2, h2⟩ := hs
+  refine ⟨max m1 m2 + 1, fun k hk => ?_⟩
+  obtain ⟨k, rfl, hk'⟩ := succ_of_le hk
+  rw [execG.eq_def]; simp only [h1 k (by omega), h2 k (by omega)]
+
+/-- does a type-switch clause select the value -/
+def tcaseHit (ty : GTy) (v : GVal) : Bool :=
+  match ty, v with
+  | .name n, .struct m _ => n == m
+  | .struct n _, .struct m _ => n == m
+  | _, _ => false
+
+theorem tsw_nil_some {F ρ w v d r} (h : NestS F ρ w d r) : TSwS F ρ w v [] (some d) r := by
+  obtain ⟨m, hm⟩ := h
+  refine ⟨m + 1, fun k hk => ?_⟩
+  obtain ⟨k, rfl, hk'⟩ := succ_of_le hk
+  rw [tswitchG.eq_def]; simp only [hm k hk']
+
+theorem tsw_nil_none {F ρ w v} : TSwS F ρ w v [] none (.ok (ρ, .normal) w) := by
+  refine ⟨1, fun k hk => ?_⟩
+  obtain ⟨k, rfl, -⟩ := succ_of_le hk
+  rw [tswitchG.eq_def]
+
+theorem tsw_cons_hit {F ρ w v ty body rest d r} (hq : tcaseHit ty v = true)
+    (hb : NestS F ρ w body r) : TSwS F ρ w v (.mk ty body :: rest) d r := by
+  obtain ⟨m2, h2⟩ := hb
+  refine ⟨m2 + 1, fun k hk => ?_⟩
+  obtain ⟨k, rfl, hk'⟩ := succ_of_le hk
+  rw [tswitchG.eq_def]
+  cases ty <;> cases v <;> simp [tcaseHit] at hq <;> simp [hq, h2 k hk']
+
+theorem tsw_cons_miss {F ρ w v ty body rest d r} (hq : tcaseHit ty v = false)
+    (hb : TSwS F ρ w v rest d r) : TSwS F ρ w v (.mk ty body :: rest) d r := by
+  obtain ⟨m2, h2⟩ := hb
+  refine ⟨m2 + 1, fun k hk => ?_⟩
+  obtain ⟨k, rfl, hk'⟩ := succ_of_le hk
+  rw [tswitchG.eq_def]
+  cases ty <;> cases v <;> simp [tcaseHit] at hq <;> simp [hq, h2 k hk']
+
+/-- a type switch `switch b := e.(type)`: the clauses run with `b` bound, the binding is popped -/
+theorem stmt_tswitch {F ρ w b e cs d v w' r} (hb : b ≠ "_") (he : EvS F ρ w e (.ok v w'))
+    (hs : TSwS F ((b, v) :: ρ) w' v cs d r) : StmtS F ρ w (.tswitch (some b) e cs d) (popTo ρ r) := by
+  obtain ⟨m1, h1⟩ := he
+  obtain ⟨m2, h2⟩ := hs
+  refine ⟨max m1 m2 + 1, fun k hk => ?_⟩
+  obtain ⟨k, rfl, hk'⟩ := succ_of_le hk
+  have hb' : (b == "_") = false := by simpa using hb
+  rw [execG.eq_def]; simp only [h1 k (by omega), hb', Bool.false_eq_true, if_false, h2 k (by omega)]
+  cases r with
+  | fail f w => rfl
+  | ok p w => obtain ⟨ρ', sig⟩ := p; rfl
 
 /-- a stable result is what any sufficiently large fuel gives: two stable results coincide -/
 theorem BlockS.unique {F ρ w ss r1 r2} (h1 : BlockS F ρ w ss r1) (h2 : BlockS F ρ w ss r2) : r1 = r2 := by
